@@ -453,6 +453,14 @@ def gen_history(seed, tier, classes=None, weights=None, n_ops=(6, 16),
               ops.append(dict(op="query", h=s.hid, method=mth,
                               probe=dict(probe(s), data=r.choice([other, s.fit_data or other]),
                                          via=r.choice(["indices", "formed"]))))
+        if s.name in PAIRS and newpre and r.random() < 0.3 and \
+            _data(datasets[other]).d == _data(datasets[s.fit_data or other]).d:
+          # calibrate_threshold after the swap, without a refit: it re-derives
+          # preprocessor_ from the parameter, so the indicators are resolved in
+          # the *new* store - the metric stays the fitted one
+          ops.append(dict(op="calibrate", h=s.hid, data=other, seed=r.randrange(1000),
+                          m=r.randint(4, 12), noise=r.choice([0, 0.2, 0.5]), dups=r.random() < 0.4,
+                          cp=gen_cp(r, False), via="indices", after_swap=True))
         if r.random() < 0.7:
           fit_op(s, other)
         else:
